@@ -36,14 +36,14 @@ def handleC02b (op : String) (args : Array Json) : Option Json := do
     some (Json.mkObj [
       ("map", shapeJ (mapArm genMapSliceGuards v)),
       ("col", shapeJ (colArm v)),
-      ("eq", Json.str (if withEq then eqText "`c`" v else "")),
-      ("neq", Json.str (if withEq then neqText "`c`" v else ""))])
+      ("eq", Json.str (if withEq then cvEqText "`c`" v else "")),
+      ("neq", Json.str (if withEq then cvNeqText "`c`" v else ""))])
   | "rekey.tie" =>
     -- ["rekey.tie", [pk columns], [[col, value]…] model value, [[col, value]…] assignments] -> {conds, set, after}
     let pks ← (← jArr? (arg args 1)).toList.mapM jStr?
     let m ← parsePairs (arg args 2)
     let sets ← parsePairs (arg args 3)
-    let o := convertToAssignments Gen.updateKeyBlockBeforeAssignments pks m sets
+    let o := updConvertToAssignments Gen.updateKeyBlockBeforeAssignments pks m sets
     some (Json.mkObj [("conds", pairsJ o.conds), ("set", pairsJ o.set), ("after", pairsJ o.after)])
   | _ => none
 
